@@ -13,7 +13,7 @@ LEAN_TARGETS = ["LoguruModel.Props.C19"]
 AUDIT_FILE = "LoguruModel/Audit/C19.lean"
 DRIVER = "Rotation"
 RULE = ("(limit S as int / float / Decimal / spelling, optional companion time condition, file encoding, the sink's "
-        "open() keyword `buffering` (default, 1, -1, 2, 16, 64, 4096, 2^20), line end of the records (newline, or none / "
+        "open() keywords `buffering` (default, 1, -1, 2, 16, 64, 4096, 2^20) and `newline` (absent, None, '', LF, CR, CRLF), line end of the records (newline, or none / "
         "'|' as a callable format leaves them), through FileSink.write or through logger.add()/logger.info(), "
         "pre-existing size P, message sequence): messages are sized around the room left in the current file (exact "
         "fit, one byte over, larger than S, empty) with ASCII / 2- / 3- / 4-byte UTF-8 content; a real FileSink writes "
@@ -55,6 +55,30 @@ def gen_text(rng, seq, want_bytes, encoding, kinds, end="\n"):
     if len(text.encode(encoding)) < want_bytes and encoding != "utf-16-le":
         text = tag + body + "a" * (want_bytes - len(text.encode(encoding))) + end
     return text
+
+
+NEWLINES = ["default", "default", "default", None, "", "\n", "\r", "\r\n", "\r\n"]   # "default" = keyword not passed
+KEY_NEWLINE = "C19-newline-translation-undercounted"
+
+
+def on_disk(text, newline):
+    """the characters the text layer writes for `text` under open()'s `newline` keyword"""
+    nl = os.linesep if newline in ("default", None) else ("\n" if newline == "" else newline)
+    return text.replace("\n", nl)
+
+
+def as_is_packing(S, P, tb, db):
+    """files the CURRENT accounting produces when it only counts message.encode(): rotate iff size + tb > S, grow by
+    db (used solely to classify a violation as the known newline finding)"""
+    files, cur, size = [], [], P
+    for k in range(len(tb)):
+        if size + tb[k] > S:
+            files.append(cur)
+            cur, size = [], 0
+        cur.append(k)
+        size += db[k]
+    files.append(cur)
+    return files
 
 
 BUFFERINGS = [None, None, None, 1, -1, -1, 2, 16, 64, 4096, 1 << 20]   # None = FileSink's own default (1)
@@ -122,7 +146,7 @@ def over_limit(d, limit, blobs):
     return None
 
 
-def run_sink_case(obj, ts0, pre, msgs, encoding, texts_bytes, S, P, buffering=None):
+def run_sink_case(obj, ts0, pre, msgs, encoding, texts_bytes, S, P, buffering=None, newline="default"):
     """like R.impl_sink, but looks at the directory after every call (direct oracle, first half).
     The stream is NOT flushed by the harness: what the rotation test does not count must not pile up."""
     import loguru._file_sink as fs
@@ -133,8 +157,10 @@ def run_sink_case(obj, ts0, pre, msgs, encoding, texts_bytes, S, P, buffering=No
     clock = R.FrozenClock()
     old_dt = fs.datetime
     over = None
-    blobs = [t.encode(encoding) for _, _, t in msgs]
+    blobs = [on_disk(t, newline).encode(encoding) for _, _, t in msgs]
     kw = {} if buffering is None else {"buffering": buffering}
+    if newline != "default":
+        kw["newline"] = newline
     try:
         path = os.path.join(d, "app.log")
         if pre is not None:
@@ -174,7 +200,7 @@ def run_sink_case(obj, ts0, pre, msgs, encoding, texts_bytes, S, P, buffering=No
         shutil.rmtree(d, ignore_errors=True)
 
 
-def run_logger_case(obj, pre, bodies, end, encoding, S, P, buffering=None):
+def run_logger_case(obj, pre, bodies, end, encoding, S, P, buffering=None, newline="default"):
     """the same through the public API: logger.add(path, format=…, rotation=…, buffering=…, encoding=…) and
     logger.info(); `end` == "\n" uses the string format "{message}", anything else a callable format that
     leaves the record without a line end.  Only size conditions (the clock is real here)."""
@@ -186,8 +212,10 @@ def run_logger_case(obj, pre, bodies, end, encoding, S, P, buffering=None):
                     capture=True, patchers=[], extra={})
     d = tempfile.mkdtemp(prefix="verif-size-")
     over = None
-    blobs = [(b + end).encode(encoding) for b in bodies]
+    blobs = [on_disk(b + end, newline).encode(encoding) for b in bodies]
     kw = {} if buffering is None else {"buffering": buffering}
+    if newline != "default":
+        kw["newline"] = newline
     try:
         path = os.path.join(d, "app.log")
         if pre is not None:
@@ -243,41 +271,69 @@ def run(ctx):
     lines, expect = [], []
 
     def sink_case(obj, token, S, P, encoding, texts, stamps, off, eff, ts, pure, rep_extra, key=None, how="",
-                  buffering=None, via="sink", end="\n"):
+                  buffering=None, via="sink", end="\n", newline="default"):
         pre = (b"x" * P) if P else None
-        tb = [len(t.encode(encoding)) for t in texts]
+        tb = [len(t.encode(encoding)) for t in texts]                      # what rotation_size adds
+        disk_texts = [on_disk(t, newline) for t in texts]
+        db = [len(t.encode(encoding)) for t in disk_texts]                 # what reaches the file
         if via == "logger":
-            got, over = run_logger_case(obj, pre, [t[:len(t) - len(end)] for t in texts], end, encoding, S, P, buffering)
+            got, over = run_logger_case(obj, pre, [t[:len(t) - len(end)] for t in texts], end, encoding, S, P, buffering,
+                                        newline)
         else:
             got, over = run_sink_case(obj, ts, pre, [(u, off, t) for u, t in zip(stamps, texts)], encoding, tb, S, P,
-                                      buffering)
+                                      buffering, newline)
         rep = dict({"stream": "sink", "token": token, "spelling": obj if isinstance(obj, str) else repr(obj),
                     "limit_floor": S, "pre": P, "encoding": encoding, "texts": texts, "stamps": stamps, "offset": off,
-                    "ctime": eff, "buffering": buffering, "via": via, "end": end}, **rep_extra)
+                    "ctime": eff, "buffering": buffering, "via": via, "end": end, "newline": newline}, **rep_extra)
+        ctx.stat("newline:%r" % (newline,))
         ctx.stat("buffering:%s" % ("default" if buffering is None else buffering))
         ctx.stat("line_end:" + ("newline" if end == "\n" else "none" if end == "" else "other"))
         ctx.stat("via:" + via)
         if got[0] != "ok":
             ctx.violation("file sink with rotation %r: %s" % (rep["spelling"], got), dict(rep, observed=list(got)), key=key)
             return
-        if over is not None:
+        if over is not None and db == tb:
             ctx.violation("rotation %r, encoding %s, buffering %s, via %s: after message %d file %s has %d bytes on disk "
                           "> limit %d and is not a single message" % (rep["spelling"], encoding, buffering, via, over[0],
                                                                      over[1], over[2], S),
                           dict(rep, observed=list(over)), key=key)
-        part = R.partition_of(got[1], texts, encoding, pre)
+        part = R.partition_of(got[1], disk_texts, encoding, pre)
         if part is None:
             ctx.violation("rotation %r: log files do not decompose into the written messages" % rep["spelling"], rep, key=key)
             return
+        # A file over the bound is attributed to the finding KEY_NEWLINE iff the newline translation lengthens the
+        # records AND, by the code's own accounting (bytes on disk so far + len(message.encode())), every message
+        # appended to that file did fit; a file that the code's own accounting should have closed stays unclassified.
+        def explained_by_newline(idx, size, init):
+            acc = init
+            for j, i in enumerate(idx):
+                if j > 0 or init > 0:
+                    if acc + tb[i] > max(S, init if j == 0 else 0) and acc + tb[i] > S:
+                        return False
+                acc += db[i]
+            return True
+
+        if key is None and db != tb:
+            bad_files = [(idx, size, P if first else 0) for idx, size, first in part
+                         if not (size <= max(S, P if first else 0) or (len(idx) == 1 and not first))]
+            if bad_files and all(explained_by_newline(*f) for f in bad_files):
+                key = KEY_NEWLINE
+        if over is not None and db != tb:
+            ctx.violation("rotation %r, encoding %s, buffering %s, newline %r, via %s: after message %d file %s has %d "
+                          "bytes on disk > limit %d and is not a single message"
+                          % (rep["spelling"], encoding, buffering, newline, via, over[0], over[1], over[2], S),
+                          dict(rep, observed=list(over)), key=key)
         appended = 0
         for idx, size, first in part:
             init = P if first else 0
-            if size != init + sum(tb[i] for i in idx):
+            if size != init + sum(db[i] for i in idx):
                 ctx.violation("rotation %r: a file has %d bytes but its messages add up to %d"
-                              % (rep["spelling"], size, init + sum(tb[i] for i in idx)), rep, key=key)
+                              % (rep["spelling"], size, init + sum(db[i] for i in idx)), rep, key=key)
             if not (size <= max(S, init) or (len(idx) == 1 and init == 0)):
-                ctx.violation("rotation %r, encoding %s, buffering %s, via %s, limit %d: a file with messages %s holds "
-                              "%d bytes" % (rep["spelling"], encoding, buffering, via, S, idx, size),
+                ctx.violation("rotation %r, encoding %s, buffering %s, newline %r, via %s, limit %d: a file with messages "
+                              "%s holds %d bytes on disk%s" % (rep["spelling"], encoding, buffering, newline, via, S, idx, size,
+                                                            " (rotation_size counted %d + %s)" % (init, [tb[i] for i in idx])
+                                                            if db != tb else ""),
                               dict(rep, observed=[idx, size]), key=key)
             if idx:
                 appended += len(idx) - 1
@@ -289,16 +345,16 @@ def run(ctx):
             seq = original[:1] + [e for e in nonempty if e is not original[0]]
             for prev, cur in zip(seq, seq[1:]):
                 k = cur[0][0]
-                if not (prev[1] + tb[k] > S):
+                if not (prev[1] + db[k] > S):
                     ctx.violation("rotation %r, limit %d: message %d (%d bytes) started a new file although the "
-                                  "current one had %d bytes" % (rep["spelling"], S, k, tb[k], prev[1]),
+                                  "current one had %d bytes" % (rep["spelling"], S, k, db[k], prev[1]),
                                   dict(rep, observed=[k, prev[1]]), key=key)
         obs = canon_files([p[0] for p in part])
         ctx.case(("sink", token, encoding, P, tuple(texts)), nontrivial=(len(part) > 1 and appended > 0))
         ctx.stat("sink:" + how)
         ctx.stat("encoding:" + encoding)
         ctx.stat("files", len(part))
-        msgs = " ".join("%d,%d,%d,%d" % (u, off, b, len(t)) for u, b, t in zip(stamps, tb, texts))
+        msgs = " ".join("%d,%d,%d,%d,%d" % (u, off, b, len(t), dk) for u, b, t, dk in zip(stamps, tb, texts, db))
         lines.append("sink %s %d %d %s" % (token, eff, P, msgs))
         expect.append((rep, obs))
 
@@ -311,7 +367,8 @@ def run(ctx):
         ctx.stat("corpus")
         sink_case(R.object_of_token(c["token"]), c["token"], c["limit_floor"], c.get("pre", 0), c.get("encoding", "utf8"),
                   texts, stamps, 0, eff, ts, True, {"corpus": name}, key=c.get("key"), how="corpus",
-                  buffering=c.get("buffering"), via=c.get("via", "sink"), end=c.get("end", "\n"))
+                  buffering=c.get("buffering"), via=c.get("via", "sink"), end=c.get("end", "\n"),
+                  newline=c.get("newline", "default"))
 
     # ---- stream 1: real FileSinks around the limit
     n1 = ctx.n(2500, 30000) * boost
@@ -343,6 +400,7 @@ def run(ctx):
                 obj = tuple(obj)
             how += "+time"
         buffering = rng.choice(BUFFERINGS)
+        newline = rng.choice(NEWLINES)
         end = rng.choice(LINE_ENDS)
         via = "logger" if pure and rng.chance(20) else "sink"
         nmsg = rng.range(2, 9) if rng.chance(80) else rng.range(9, 16)
@@ -364,13 +422,16 @@ def run(ctx):
             if encoding == "utf-16-le":
                 want += want % 2
             text = gen_text(rng, k, want, encoding, kinds, end)
+            if rng.chance(12) and len(text) > 8:
+                mid = len(text) // 2            # a multi-line record: every inner line end is translated as well
+                text = text[:mid] + "\n" + text[mid + 1:]
             b = len(text.encode(encoding))
             texts.append(text)
             room = room - b if room - b >= 0 and room >= 0 else S - b
             t += rng.choice([0, 1, 1000, 60 * 10**6, R.HOUR, R.HOUR * 7, R.DAY]) if not pure else k
             stamps.append(t)
         sink_case(obj, token, S, P, encoding, texts, stamps, off, eff, ts, pure, {}, how=how, buffering=buffering,
-                  via=via, end=end)
+                  via=via, end=end, newline=newline)
 
     # ---- stream 2: spellings of sizes denote the documented quantities (value level)
     from loguru import _string_parsers as sp
@@ -469,16 +530,20 @@ def replay(ctx, rep):
         texts, enc_, S, P = r["texts"], r["encoding"], r["limit_floor"], r["pre"]
         tb = [len(t.encode(enc_)) for t in texts]
         buffering, via, end = r.get("buffering"), r.get("via", "sink"), r.get("end", "\n")
+        newline = r.get("newline", "default")
+        disk_texts = [on_disk(t, newline) for t in texts]
         if via == "logger":
             got, over = run_logger_case(obj, (b"x" * P) if P else None, [t[:len(t) - len(end)] for t in texts], end, enc_,
-                                        S, P, buffering)
+                                        S, P, buffering, newline)
         else:
             got, over = run_sink_case(obj, R.ctime_pair(r["ctime"])[0], (b"x" * P) if P else None,
-                                      [(u, r["offset"], t) for u, t in zip(r["stamps"], texts)], enc_, tb, S, P, buffering)
+                                      [(u, r["offset"], t) for u, t in zip(r["stamps"], texts)], enc_, tb, S, P, buffering,
+                                      newline)
         bad = got[0] != "ok" or over is not None
         sizes = None
         if got[0] == "ok":
-            part = R.partition_of(got[1], texts, enc_, (b"x" * P) if P else None)
+            part = R.partition_of(got[1], disk_texts, enc_, (b"x" * P) if P else None)
+            tb = [len(t.encode(enc_)) for t in disk_texts]
             sizes = [(idx, size) for idx, size, first in part] if part else None
             if part is None:
                 bad = True
@@ -499,8 +564,8 @@ def replay(ctx, rep):
                             prev = [s for i2, s, f2 in part if i2 and i2[-1] == k - 1]
                             if prev and prev[0] + tb[k] <= S:
                                 bad = True
-        print("rotation=%r encoding=%s limit=%d pre=%d buffering=%s via=%s line end=%r"
-              % (r.get("spelling"), enc_, S, P, buffering, via, end))
+        print("rotation=%r encoding=%s limit=%d pre=%d buffering=%s newline=%r via=%s line end=%r"
+              % (r.get("spelling"), enc_, S, P, buffering, newline, via, end))
         print("files (messages, bytes):", sizes if sizes is not None else got)
         print("first over-limit file seen during the run:", over)
     print("REPRODUCED" if bad else "not reproduced")
